@@ -9,21 +9,26 @@ TTL it is a fresh publish.  A versioned publish is suppressed exactly when the c
 holds an equal or higher version in the same version epoch (unversioned publishes do not reset that
 protection), and suppressed publishes change nothing.
 
-What is proved about the code's model (`Model/HistoryHub.lean`), for all states, operation
-sequences and times:
+What is proved about the code's model (`Model/HistoryHub.lean`, mirroring /repo after the fix
+commits a5ec69f4 and e5e52fd9), for all states, operation sequences and times:
 * `idem_within_ttl`, `idem_after_ttl_fresh`, `idem_suppressed_iff`, `idem_changes_nothing`;
-* `version_suppressed_iff` — against the stream's *current* version pair;
-* `suppressed_no_broadcast`, `stored_broadcast_once`;
-* `version_suppressed_frame_partial` — a version-suppressed publish leaves streams, epochs and the
-  result cache untouched, **but not the expiry deadlines**.
-Three clauses of the statement do **not** hold for the code; each has a machine-checked
-counter-witness below and a replay on the real broker (findings C19-1, C19-2, C19-3):
-* an unversioned publish overwrites the version pair with `(0, "")` (`unversioned_resets_version`),
-  so "unversioned publishes do not reset that protection" fails;
-* the deadlines are refreshed before the version check, so "suppressed publishes change nothing"
-  fails for the history's lifetime;
+* `version_suppressed_iff` — against the version pair the stream holds;
+* `version_pair_step`, `unversioned_keeps_version` — the held version pair changes **only** by a
+  stored versioned publish on that channel: unversioned publishes, other channels' traffic,
+  history reads, remove, data expiry do not reset the protection;
+* `version_suppressed_changes_nothing` — a version-suppressed publish without `UseDelta` leaves the
+  whole broker state untouched (streams, epochs, **deadlines**, queues, result cache);
+* `suppressed_no_broadcast`, `stored_broadcast_once`.
+Two clauses still do **not** hold for the code; each has a machine-checked counter-witness below
+and a replay on the real broker:
+* with `UseDelta` the delta read (`getLocked`) in front of the version check still refreshes the
+  channel's meta-TTL deadline, so a version-suppressed delta publish extends the life of the stream
+  metadata (`version_suppressed_delta_partial`, `version_suppressed_delta_refreshes_meta`; C19-4);
 * the result-cache key is `channel ++ "_" ++ key`, so different (channel, key) pairs can collide and
-  a first-time publish is suppressed ("exactly the duplicates" fails).
+  a first-time publish is suppressed ("exactly the duplicates" fails; C19-3).
+Fixed since the first round (old counter-witnesses kept as comments, replays kept in the corpus):
+C19-1 (an unversioned publish reset the version pair), C19-2 (a version-suppressed publish
+refreshed the history-TTL and meta-TTL deadlines).
 -/
 namespace CentrifugeVerif.HistoryHub
 open CentrifugeVerif.MemStream CentrifugeVerif.AbsStream
@@ -135,18 +140,101 @@ theorem version_suppressed_iff (b : Broker) (ch data : String) (o : PubOpts) (no
     have hsk := (add_skip_iff b.hub ch ⟨data, o.version⟩ o (now / 1000)).mpr hex
     rw [publish_skip b ch data o now hm hh hsk]
 
-/-- what a stored publish does to the stream's version pair: it is **overwritten** with the
-publish's `(version, versionEpoch)` — also by an unversioned publish (`(0, "")`). -/
-theorem stored_sets_version (s : MStream Pub) (v : Pub) (size ver : Nat) (ve : String) :
-    (s.add v size ver ve).1.topVersion = ver ∧ (s.add v size ver ve).1.topVersionEpoch = ve := ⟨rfl, rfl⟩
+/-- what `Add` does to the stream's version pair: a versioned publish sets it, an **unversioned
+publish keeps it** -/
+theorem stored_version_pair (s : MStream Pub) (v : Pub) (size ver : Nat) (ve : String) :
+    ((s.add v size ver ve).1.topVersion, (s.add v size ver ve).1.topVersionEpoch) =
+      if ver > 0 then (ver, ve) else (s.topVersion, s.topVersionEpoch) := by
+  unfold MStream.add
+  split <;> simp_all
 
-/-- **version protection (partial)**: right after a stored publish with version `v` in epoch `ve`,
-a publish with version `0 < v' ≤ v` in the same or an empty epoch is suppressed.
-Full clause ("equal or higher version the channel already holds, unversioned publishes do not reset
-that protection") is false on the code: `unversioned_resets_version` below. -/
-theorem version_protection_partial (s : MStream Pub) (p : Pub) (size v : Nat) (ve : String) (o : PubOpts)
-    (h0 : 0 < o.version) (hle : o.version ≤ v) (hve : o.versionEpoch = "" ∨ o.versionEpoch = ve) :
-    VersionSkip o (s.add p size v ve).1 := ⟨h0, hve, hle⟩
+/-- **unversioned publishes do not reset the protection** (stream level) -/
+theorem unversioned_keeps_version (s : MStream Pub) (v : Pub) (size : Nat) (ve : String) :
+    (s.add v size 0 ve).1.topVersion = s.topVersion ∧
+      (s.add v size 0 ve).1.topVersionEpoch = s.topVersionEpoch := ⟨rfl, rfl⟩
+
+/-- the version pair a stream holds -/
+def vpair (s : MStream Pub) : Nat × String := (s.topVersion, s.topVersionEpoch)
+
+/-- **the held version pair changes only by a stored versioned publish on that channel**: across
+any operation, a channel that has a stream before and after it holds the same version pair —
+unless the operation is a publish to that channel with `version > 0` that was stored, in which
+case the pair is that publish's.  (So unversioned publishes, idempotent or version-suppressed
+publishes, publishes to other channels, history reads, `RemoveHistory` and data expiry all keep
+the protection; it ends only with the stream itself, at meta expiry.) -/
+theorem version_pair_step (b : Broker) (op : Op) (x : String) (s s' : MStream Pub)
+    (hst : (b.hub.chans x).stream = some s) (hst' : ((step b op).1.hub.chans x).stream = some s') :
+    vpair s' = vpair s ∨
+      ∃ data o now, op = .publish x data o now ∧ o.version > 0 ∧
+        (b.publish x data o now).2.suppress = .none ∧ vpair s' = (o.version, o.versionEpoch) := by
+  cases op with
+  | publish ch data o now =>
+    simp only [step] at hst'
+    rcases publish_cases b ch data o now with ⟨p, h⟩ | ⟨hm, hh, hsk⟩ | ⟨hm, hh, hsk⟩ | ⟨hm, hh⟩
+    · rw [publish_hit b ch data o now p h] at hst'
+      rw [hst] at hst'; cases hst'; left; rfl
+    · rw [publish_skip b ch data o now hm hh hsk] at hst'
+      rw [(add_skip_spec _ ch _ o _ hsk).2.2.2.1 x, hst] at hst'; cases hst'; left; rfl
+    · have hpub := publish_store b ch data o now hm hh hsk
+      rw [hpub] at hst'
+      simp only [saved_hub] at hst'
+      by_cases hx : x = ch
+      · subst hx
+        rcases add_cases b.hub x ⟨data, o.version⟩ o (now / 1000) with
+          ⟨t, ht, hv, he⟩ | ⟨t, ht, hv, he, _⟩ | ⟨ht, he, _⟩
+        · rw [he] at hsk; cases hsk
+        · rw [hst] at ht; cases ht
+          rw [he] at hst'
+          simp only [set_chans_same] at hst'
+          cases hst'
+          by_cases hver : o.version > 0
+          · right
+            refine ⟨data, o, now, rfl, hver, by rw [hpub], ?_⟩
+            simp [vpair, MStream.add, hver]
+          · left; simp [vpair, MStream.add, hver]
+        · rw [hst] at ht; cases ht
+      · rw [add_stream_other _ ch _ o _ x hx, hst] at hst'; cases hst'; left; rfl
+    · rw [publish_nohistory b ch data o now hm hh] at hst'
+      simp only [saved_hub] at hst'
+      rw [hst] at hst'; cases hst'; left; rfl
+  | history ch f m now =>
+    simp only [step, Broker.history] at hst'
+    left
+    by_cases hx : x = ch
+    · subst hx
+      rw [get_stream_some _ x f m _ s hst, touchMeta_stream, hst] at hst'; cases hst'; rfl
+    · rw [get_stream_other _ ch f m _ x hx, hst] at hst'; cases hst'; rfl
+  | remove ch =>
+    simp only [step, Broker.removeHistory] at hst'
+    left
+    unfold Hub.remove at hst'
+    by_cases hx : x = ch
+    · subst hx
+      simp only [hst, set_chans_same] at hst'
+      cases hst'; rfl
+    · cases hc : (b.hub.chans ch).stream with
+      | none => simp only [hc] at hst'; rw [hst] at hst'; cases hst'; rfl
+      | some t =>
+        simp only [hc, set_chans_other _ _ _ _ hx] at hst'
+        rw [hst] at hst'; cases hst'; rfl
+  | tick n =>
+    simp only [step, Broker.tick, Broker.sweepCache] at hst'
+    left
+    rcases tick_stream b.hub n x with e | e | ⟨e, _⟩
+    · rw [e, hst] at hst'; cases hst'; rfl
+    · rw [e, hst] at hst'; cases hst'; rfl
+    · rw [e] at hst'; cases hst'
+
+/-- **version protection**: in a state where the channel's stream holds version `v` in epoch `ve`, a
+publish with version `0 < v' ≤ v` in the same or an empty epoch is suppressed — and by
+`version_pair_step` the held pair is the one of the latest stored *versioned* publication, whatever
+unversioned traffic came after it. -/
+theorem version_protection (b : Broker) (ch data : String) (o : PubOpts) (now : Nat) (s : MStream Pub)
+    (hst : (b.hub.chans ch).stream = some s) (hm : b.idemHit ch o now = none) (hh : o.history)
+    (h0 : 0 < o.version) (hle : o.version ≤ s.topVersion)
+    (hve : o.versionEpoch = "" ∨ o.versionEpoch = s.topVersionEpoch) :
+    (b.publish ch data o now).2.suppress = .version :=
+  (version_suppressed_iff b ch data o now).mpr ⟨hm, hh, s, hst, h0, hve, hle⟩
 
 /-- a version-suppressed or idempotency-suppressed publish reaches no subscriber -/
 theorem suppressed_no_broadcast (b : Broker) (ch data : String) (o : PubOpts) (now : Nat)
@@ -170,54 +258,103 @@ theorem stored_broadcast_once (b : Broker) (ch data : String) (o : PubOpts) (now
   · rw [publish_store b ch data o now hm hh hsk]; exact ⟨_, rfl⟩
   · rw [publish_nohistory b ch data o now hm hh]; exact ⟨_, rfl⟩
 
-/-- **suppressed publishes change nothing (partial)**: a version-suppressed publish returns the
-stream's current top position and leaves every stream (contents, top, epoch, version pair), the
-epoch counter and the result cache untouched.
-Full statement — `(b.publish …).1 = b` — is false on the code: the history-TTL and meta-TTL
-deadlines of the channel are refreshed before the version check
-(`version_suppressed_extends_ttl` below). -/
-theorem version_suppressed_frame_partial (b : Broker) (ch data : String) (o : PubOpts) (now : Nat)
+/-- the exact state after a version-suppressed publish: the broker is unchanged except that, with
+`UseDelta`, the delta read in front of the version check has refreshed the channel's meta deadline -/
+theorem version_suppressed_state (b : Broker) (ch data : String) (o : PubOpts) (now : Nat)
     (hs : (b.publish ch data o now).2.suppress = .version) :
-    (∀ x, ((b.publish ch data o now).1.hub.chans x).stream = (b.hub.chans x).stream) ∧
-      (b.publish ch data o now).1.hub.nextEpoch = b.hub.nextEpoch ∧
-      (b.publish ch data o now).1.cache = b.cache ∧
+    (b.publish ch data o now).1 =
+      { b with hub := if o.useDelta then b.hub.touchMeta ch o.metaTTL (now / 1000) else b.hub } ∧
       ∃ s, (b.hub.chans ch).stream = some s ∧ (b.publish ch data o now).2.pos = ⟨s.top, s.epoch⟩ := by
   rcases publish_cases b ch data o now with ⟨p, h⟩ | ⟨hm, hh, hsk⟩ | ⟨hm, hh, hsk⟩ | ⟨hm, hh⟩
   · rw [publish_hit b ch data o now p h] at hs; cases hs
   · rw [publish_skip b ch data o now hm hh hsk]
-    obtain ⟨h1, _, h3, h4⟩ := add_skip_spec b.hub ch ⟨data, o.version⟩ o (now / 1000) hsk
-    refine ⟨h3, ?_, rfl, h4⟩
-    have := congrArg Abs.nextEpoch h1
-    simpa [Hub.abs] using this
+    obtain ⟨h1, _, _, _, h5⟩ := add_skip_spec b.hub ch ⟨data, o.version⟩ o (now / 1000) hsk
+    exact ⟨by simp only [h1], h5⟩
   · rw [publish_store b ch data o now hm hh hsk] at hs; cases hs
   · rw [publish_nohistory b ch data o now hm hh] at hs; cases hs
 
-/-! ## counter-witnesses (each is replayed on the real broker by the check) -/
+/-- **suppressed publishes change nothing**: a version-suppressed publish without `UseDelta` leaves
+the broker state exactly as it was — streams, epochs, history-TTL and meta-TTL deadlines, sweep
+queues, result cache — returns the current top position and reaches no subscriber. -/
+theorem version_suppressed_changes_nothing (b : Broker) (ch data : String) (o : PubOpts) (now : Nat)
+    (hs : (b.publish ch data o now).2.suppress = .version) (hd : o.useDelta = false) :
+    (b.publish ch data o now).1 = b ∧ (b.publish ch data o now).2.bcast = none := by
+  refine ⟨?_, suppressed_no_broadcast b ch data o now (by rw [hs]; simp)⟩
+  rw [(version_suppressed_state b ch data o now hs).1]
+  simp [hd]
 
-/-- finding C19-1: v=5 stored, v=3 suppressed, an unversioned publish stored, then v=3 is **stored**:
-the unversioned publish reset the version pair to `(0, "")` -/
+/-- **(partial, `UseDelta`)**: with `UseDelta` a version-suppressed publish leaves every stream, the
+epoch counter, the history-TTL deadline and the result cache untouched; only the channel's
+meta-TTL deadline is refreshed (by the delta read that precedes the version check).
+Full statement — state unchanged — fails: `version_suppressed_delta_refreshes_meta` below. -/
+theorem version_suppressed_delta_partial (b : Broker) (ch data : String) (o : PubOpts) (now : Nat)
+    (hs : (b.publish ch data o now).2.suppress = .version) :
+    (∀ x, ((b.publish ch data o now).1.hub.chans x).stream = (b.hub.chans x).stream) ∧
+      (∀ x, ((b.publish ch data o now).1.hub.chans x).expires = (b.hub.chans x).expires) ∧
+      (b.publish ch data o now).1.hub.nextEpoch = b.hub.nextEpoch ∧
+      (b.publish ch data o now).1.cache = b.cache := by
+  rw [(version_suppressed_state b ch data o now hs).1]
+  refine ⟨?_, ?_, ?_, rfl⟩
+  · intro x; simp only; split
+    · exact touchMeta_stream _ _ _ _ _
+    · rfl
+  · intro x; simp only; split
+    · unfold Hub.touchMeta
+      split
+      · by_cases hx : x = ch
+        · subst hx; simp
+        · simp [set_chans_other _ _ _ _ hx]
+      · rfl
+    · rfl
+  · simp only; split
+    · exact touchMeta_nextEpoch _ _ _ _
+    · rfl
+
+/-! ## witnesses (each is replayed on the real broker by the check) -/
+
+/-- fixed finding C19-1: v=5 stored, v=3 suppressed, an unversioned publish stored, then v=3 is
+suppressed again — the unversioned publish kept the version pair.
+(Before /repo commit a5ec69f4 `Add` overwrote the pair with `(0, "")` and the last publish was
+stored at offset 3: outputs were `[(1,none), (1,version), (2,none), (3,none)]`.) -/
 def c19w1 : List Op := [
   .publish "a" "d1" { size := 3, ttl := 10000, version := 5 } 500,
   .publish "a" "d2" { size := 3, ttl := 10000, version := 3 } 600,
   .publish "a" "d3" { size := 3, ttl := 10000 } 700,
   .publish "a" "d4" { size := 3, ttl := 10000, version := 3 } 800]
 
-theorem unversioned_resets_version :
+theorem unversioned_keeps_protection :
     (runOut (Broker.init 60000) c19w1).map (fun o => match o with | .pub p => some (p.pos.offset, p.suppress) | _ => none) =
-      [some (1, .none), some (1, .version), some (2, .none), some (3, .none)] := by decide
+      [some (1, .none), some (1, .version), some (2, .none), some (2, .version)] := by decide
 
-/-- finding C19-2: v=5 at 0.5 s with TTL 10 s; a suppressed v=3 at 9.5 s moves the data deadline from
-second 10 to second 19, so the history survives the sweeps at seconds 10 and 11 -/
+/-- fixed finding C19-2: v=5 at 0.5 s with TTL 10 s; a suppressed v=3 at 9.5 s leaves the data
+deadline at second 10, so the history is gone after the sweeps at seconds 10 and 11 — exactly as
+without the suppressed publish.
+(Before /repo commit e5e52fd9 the deadline moved to second 19 and the history survived.) -/
 def c19w2 : List Op := [
   .publish "a" "d1" { size := 3, ttl := 10000, version := 5 } 500,
   .publish "a" "d2" { size := 3, ttl := 10000, version := 3 } 9500]
 
-theorem version_suppressed_extends_ttl :
+theorem version_suppressed_keeps_ttl :
     let b1 := run (Broker.init 60000) (c19w2.take 1)
     let b2 := run (Broker.init 60000) c19w2
-    (b1.hub.chans "a").expires = some 10 ∧ (b2.hub.chans "a").expires = some 19 ∧
+    (b1.hub.chans "a").expires = some 10 ∧ (b2.hub.chans "a").expires = some 10 ∧
       (((b1.tick 10).tick 11).history "a" { limit := -1 } 0 11500).2.1 = [] ∧
-      (((b2.tick 10).tick 11).history "a" { limit := -1 } 0 11500).2.1 = [⟨1, ⟨"d1", 5⟩⟩] := by decide
+      (((b2.tick 10).tick 11).history "a" { limit := -1 } 0 11500).2.1 = [] := by decide
+
+/-- finding C19-4 (counter-witness to "suppressed publishes change nothing" with `UseDelta`):
+v=5 at 0.5 s with meta TTL 3 s (meta deadline: second 3); a version-suppressed **delta** publish at
+2.5 s moves the meta deadline to second 5, so the stream (epoch 1, top 1) survives the sweeps at
+seconds 3 and 4 — without it the stream is dropped at second 3 and the next read sees epoch 2. -/
+def c19w4 : List Op := [
+  .publish "a" "d1" { size := 3, ttl := 10000, metaTTL := 3000, version := 5 } 500,
+  .publish "a" "d2" { size := 3, ttl := 10000, metaTTL := 3000, version := 3, useDelta := true } 2500]
+
+theorem version_suppressed_delta_refreshes_meta :
+    let b1 := run (Broker.init 60000) (c19w4.take 1)
+    let b2 := run (Broker.init 60000) c19w4
+    (b1.hub.chans "a").removes = some 3 ∧ (b2.hub.chans "a").removes = some 5 ∧
+      (((b1.tick 3).tick 4).history "a" { limit := 0 } 3000 4500).2.2 = ⟨0, 2⟩ ∧
+      (((b2.tick 3).tick 4).history "a" { limit := 0 } 3000 4500).2.2 = ⟨1, 1⟩ := by decide
 
 /-- finding C19-3: (channel `a_b`, key `c`) and (channel `a`, key `b_c`) share a cache key; the
 first-time publish to `a` is answered with the other channel's position and dropped -/
